@@ -129,7 +129,7 @@ def replay(rec):
 
 
 def run(ctx):
-    nth_token_lemma(ctx)
+    ctx.lemma(nth_token_lemma, 'nth_token_lemma')
     ctx.bounds.append('see per-obligation bounds; |a|,|b| beyond the stated range are outside the claim')
     ctx.assume('SelectorNth is replaced by a duck-typed stand-in with the same attributes (a, n, b, of_type, last, '
                'selectors) so that the IR constructor does not hash (realise) symbolic integers; match_nth reads only '
